@@ -216,6 +216,10 @@ def problem_fingerprint(p):
     return 'mjb-accepts-minus1', 'the value -1 is accepted in a reference field that has no "none" value'
   if kind == 'adr' and value + num > INT_MAX:
     return 'mjb-adr-plus-num-int-overflow', 'adr+num overflows int in the range check'
+  if str(kind).startswith('branch:'):
+    # the validity of this field depends on a type field: one fingerprint per (field, branch), so that a known gap in one
+    # branch can never absorb a defect in a branch the tree does validate
+    return 'mjb-unvalidated:%s[%s]' % (field, kind[7:]), 'this branch of the field is not range-checked'
   return 'mjb-unvalidated:' + field, 'field is not range-checked'
 
 
@@ -558,6 +562,17 @@ class C31:
     out = []
     Q = (lambda full, q: q) if quick else (lambda full, q: full)
 
+    TYPED = dict(eq_obj1id=('eq_type', 'eq_objtype'), eq_obj2id=('eq_type', 'eq_objtype'), wrap_objid=('wrap_type',),
+                 sensor_objid=('sensor_objtype',), sensor_refid=('sensor_reftype',), tuple_objid=('tuple_objtype',),
+                 geom_dataid=('geom_type',))
+
+    def branch_key(field, i):
+      if field in TYPED:
+        return str([int(np.asarray(getattr(m, t)).ravel()[i]) for t in TYPED[field]])
+      if field == 'actuator_trnid':
+        return str([int(np.asarray(m.actuator_trntype).ravel()[i // 2]), i % 2])
+      return ''
+
     def elem_cases(field, idxs, vals, why, checkfields=None):
       off, dt, sh, nb = lay.arrays[field]
       isz = dt.itemsize
@@ -570,13 +585,26 @@ class C31:
             continue
           hx = i32(v) if isz == 4 else i64(v)
           out.append(dict(model=rec['name'], cls='index', field=field, what='%s[%d]: %d -> %d (%s)' % (
-              field, i, int(flat[i]), v, why), ops=[['set', off + i * isz, hx]], checkfields=checkfields, reference=(checkfields is not None or why == 'special relation') and field not in TYPE_FIELDS))
+              field, i, int(flat[i]), v, why), ops=[['set', off + i * isz, hx]], checkfields=checkfields, cover=field + branch_key(field, i),
+                          reference=(checkfields is not None or why == 'special relation') and field not in TYPE_FIELDS))
     for r in modelref.relations(lib):
       f = r.field
       a = np.asarray(getattr(m, f)).ravel()
       if a.size == 0 or a.dtype.kind not in 'iu':
         continue
       idxs = sorted(set([a.size - 1, 0, a.size // 2]), reverse=True)[:per_field]
+      if f in TYPED:        # one element per branch of the type field(s) the validity depends on
+        keys = list(zip(*[np.asarray(getattr(m, t)).ravel().tolist() for t in TYPED[f]]))
+        seen = {}
+        for i, k in enumerate(keys):
+          seen[k] = i
+        idxs = sorted(set(idxs) | set(seen.values()))
+      elif f == 'actuator_trnid':
+        tt = np.asarray(m.actuator_trntype).ravel().tolist()
+        seen = {}
+        for i, k in enumerate(tt):
+          seen[k] = i
+        idxs = sorted(set(idxs) | set(2 * i for i in seen.values()) | set(2 * i + 1 for i in seen.values()))
       if r.kind == 'id':
         n = int(getattr(m, r.target))
         elem_cases(f, idxs, Q([n, n + 7, r.lo - 1, -9, INT_MAX, INT_MIN], [n, n + 7, r.lo - 1, INT_MIN]),
@@ -719,6 +747,15 @@ def pick_cover(c, recs, rels):
     for rel in rels:
       if np.asarray(getattr(r['m'], rel.field)).size:
         fs.add(rel.field)
+    mm = r['m']
+    for a, b in zip(np.asarray(mm.eq_type).ravel().tolist(), np.asarray(mm.eq_objtype).ravel().tolist()):
+      fs.add('eq:%d:%d' % (a, b))
+    for t in set(np.asarray(mm.actuator_trntype).ravel().tolist()):
+      fs.add('trn:%d' % t)
+    for t in set(np.asarray(mm.wrap_type).ravel().tolist()):
+      fs.add('wrap:%d' % t)
+    for t in set(np.asarray(mm.sensor_objtype).ravel().tolist()):
+      fs.add('sensobj:%d' % t)
     have[r['name']] = fs
     need |= fs
   chosen = []
@@ -811,7 +848,7 @@ def main(ck):
             labels=['roundtrip:generated'] + [l for l in gm.labels() if l.split(':')[0] in (
                 'mesh', 'hfield', 'texture', 'material', 'default-class', 'frame', 'replicate', 'keyframe', 'tuple',
                 'geom-adhesion', 'pair-adhesion', 'gravcomp', 'surfacevel', 'numeric', 'text', 'pair', 'exclude')])
-  ck.run_hypothesis(rt_test, st.tuples(gen_io.rich_models(max_bodies=4, memory='2M', fusestatic=False), mg.state_seed()), ck.budget(16, 120),
+  ck.run_hypothesis(rt_test, st.tuples(gen_io.rich_models(max_bodies=4, memory='2M', fusestatic=False, muscles=False), mg.state_seed()), ck.budget(16, 120),
                     name='roundtrip', shrink=False)
   _tick('roundtrip-generated')
   files = [f for f in corpus.xml_files(lib.repo) if os.path.getsize(f) < (4000 if quick else 40000)]
@@ -861,8 +898,8 @@ def main(ck):
   reps = 1 if quick else 3
   for k, r in enumerate(targets):
     cases = [x for x in c.index_cases(r, per_field=1 if quick else 2, other=True, quick=quick)
-             if done_fields[x['field']] < reps]
-    for f in set(x['field'] for x in cases):
+             if done_fields[x.get('cover', x['field'])] < reps]
+    for f in set(x.get('cover', x['field']) for x in cases):
       done_fields[f] += 1
     c.run_cases(r, cases)
   _tick('index-enumeration')
